@@ -618,11 +618,16 @@ SubhQuit ==
 ----------------------------------------------------------------------------
 BmFrame == UNCHANGED <<pool, q, tries, w, mtx, ux, bc, acts, cs, misc>>
 
-\* blockHandler :2297 a headers message connects a block: newHeadersSignal
-\* .Broadcast :3059, onBlockConnected :3152 blockNtfnChan <- | <-b.quit
-BlkhHeaders ==
+\* blockHandler :2297 handles a headers message: newHeadersSignal.Broadcast
+\* :3059 wakes the cfHandler; if the message reorganises the chain the rollback
+\* sends a disconnected notification per block (onBlockDisconnected :3163
+\* blockNtfnChan <- | <-b.quit).  (Connected notifications are sent by the
+\* cfHandler once the filter header is written, see CfhNtfn.)
+BlkhHeaders(reorg) ==
   /\ g.blkh = "sel" /\ SyncH /\ ~Closed("S")
-  /\ g' = [g EXCEPT !.blkh = "ntfn", !.cfh = IF g.cfh = "cond" THEN "woken" ELSE g.cfh]
+  /\ g' = [g EXCEPT !.blkh = IF reorg THEN "ntfn" ELSE "sel",
+                    !.cfh = IF g.cfh = "cond" THEN "woken" ELSE g.cfh]
+  /\ reorg \/ g.cfh = "cond"
   /\ UNCHANGED <<bat, err, sb>> /\ BmFrame
   /\ Finish(I("BlkhHeaders"))
 
@@ -682,6 +687,7 @@ CfhQallEnd(next) ==
   /\ g.cfh = "qall"
   /\ \/ next = "retry" /\ UNCHANGED bat
      \/ next = "check" /\ UNCHANGED bat
+     \/ next = "ntfn" /\ UNCHANGED bat             \* headers verified and written: notify
      \/ next = "getblk" /\ SyncC /\ bat["cg"] = "none" /\ err["cg"] = "none"
         /\ bat' = [bat EXCEPT !["cg"] = "sub"]
   /\ g' = G("cfh", next)
@@ -700,12 +706,23 @@ CfhCpqEnd ==
   /\ g.cfh = "cpq"
   /\ \/ /\ err["ch"] # "none"
         /\ err' = [err EXCEPT !["ch"] = "none"]
-        /\ g' = G("cfh", "check")
+        /\ \E n \in {"check", "ntfn"} : g' = G("cfh", n)      \* headers written :1440 notify
      \/ /\ Closed("BM") /\ err["ch"] = "none"
         /\ UNCHANGED err
         /\ g' = G("cfh", "exited")
   /\ UNCHANGED <<bat, sb>> /\ BmFrame
   /\ Finish(I("CfhCpqEnd"))
+
+\* writeCFHeadersMsg :1440 onBlockConnected per written filter header:
+\* blockNtfnChan <- | <-b.quit, taken by the subscription handler :173
+CfhNtfn ==
+  /\ g.cfh = "ntfn"
+  /\ \/ /\ g.subh = "sel"
+        /\ sb' = [sb EXCEPT !.item = [s \in SubIds |-> sb.item[s] \/ s \in sb.subs]]
+     \/ /\ Closed("BM") /\ UNCHANGED sb
+  /\ g' = G("cfh", "check")
+  /\ UNCHANGED <<bat, err>> /\ BmFrame
+  /\ Finish(I("CfhNtfn"))
 
 \* detectBadPeers -> GetBlock query.go:928 select { errChan | s.quit }
 CfhGetblkEnd ==
@@ -853,10 +870,12 @@ Internal ==
   \/ ReaderRet(K_SUB, "u") \/ ReaderRet(K_RESCAN, "r")
   \/ \E s \in SubIds : FwdTake(s) \/ FwdDeliver(s) \/ FwdQuit(s)
   \/ SubhQuit
-  \/ BlkhHeaders \/ BlkhNtfn \/ BlkhQuit
+  \/ \E b \in BOOLEAN : BlkhHeaders(b)
+  \/ BlkhNtfn \/ BlkhQuit
   \/ CfhFirst \/ Tick
   \/ \E n \in {"exited", "cond", "qall", "cpq"} : CfhWoken(n)
-  \/ \E n \in {"retry", "check", "getblk"} : CfhQallEnd(n)
+  \/ \E n \in {"retry", "check", "getblk", "ntfn"} : CfhQallEnd(n)
+  \/ CfhNtfn
   \/ CfhRetryEnd \/ CfhCpqEnd \/ CfhGetblkEnd \/ CfhCheck
   \/ \E b \in BOOLEAN : RsNext(b) \/ RsGot(b)
   \/ RsFLock \/ RsMark
@@ -889,7 +908,8 @@ Fair ==
   /\ WF_vars(BlkhNtfn) /\ SF_vars(BlkhQuit)
   /\ WF_vars(CfhFirst) /\ WF_vars(Tick)
   /\ WF_vars(\E n \in {"exited", "cond", "qall", "cpq"} : CfhWoken(n))
-  /\ WF_vars(\E n \in {"retry", "check", "getblk"} : CfhQallEnd(n))
+  /\ WF_vars(\E n \in {"retry", "check", "getblk", "ntfn"} : CfhQallEnd(n))
+  /\ WF_vars(CfhNtfn)
   /\ WF_vars(CfhRetryEnd) /\ WF_vars(CfhCpqEnd) /\ WF_vars(CfhGetblkEnd) /\ WF_vars(CfhCheck)
   /\ WF_vars(\E b \in BOOLEAN : RsNext(b)) /\ WF_vars(\E b \in BOOLEAN : RsGot(b))
   /\ WF_vars(RsFLock) /\ WF_vars(RsMark)
@@ -916,7 +936,7 @@ TypeOK ==
   /\ g.wk \in {"none", "idle", "job", "res", "exited"}
   /\ g.bmg \in {"cond", "woken", "top", "cflock", "getblk", "getcf", "exited"}
   /\ g.bch \in {"sel", "bcast", "cancelsub", "exited"}
-  /\ g.cfh \in {"first", "cond", "woken", "qall", "cpq", "getblk", "retry", "check", "exited"}
+  /\ g.cfh \in {"first", "cond", "woken", "qall", "cpq", "getblk", "retry", "check", "ntfn", "exited"}
   /\ \A o \in Owners : bat[o] \in {"none", "sub", "queued", "job"}
   /\ \A o \in Owners : err[o] \in {"none", "ok", "fail", "shut", "cancel"}
   /\ mtx \in {"free", "cf", "ux", "rs"}
